@@ -12,9 +12,10 @@ META = {
                  "partial_trace / reduce_statevector / expand_matrix / purity / pure fidelity + vm_compute correspondence "
                  "against pennylane.math on dyadic states; eigenvalue-based quantities by numerical oracles (mpmath)",
     "design_ref": "DESIGN.md §3 C49",
-    "text": "Kernel-checked theorems (Props/C49.v, all qubit numbers, all index sets): the transcribed partial_trace loop "
-            "equals the mask contraction and the explicit index-contraction sum; partial traces preserve the trace, compose "
-            "(A then B = A u B) and commute; the reduced state of rho_A (x) rho_B is tr(rho_B) rho_A; reduce_statevector = "
+    "text": "21 kernel-checked theorems (Props/C49.v, all qubit numbers, all index sets): the transcribed partial_trace loop "
+            "equals the mask contraction; reduce_dm (sorted and permuted kept wires) equals the explicit index-contraction "
+            "sum entry by entry; partial traces preserve the trace, compose (A then B = A u B) and are order-independent; "
+            "the reduced state of rho_A (x) rho_B is tr(rho_B) rho_A; reduce_statevector = "
             "partial trace of |psi><psi|; Kronecker expansion with identities is multiplicative, unital and reducing it "
             "back gives 2^k times the operator; entry formula of the tensor re-indexing (permute_dense / build-get laws); "
             "pure fidelity is symmetric, = |<psi|phi>|^2, >= 0 and <= <psi|psi><phi|phi> (Cauchy-Schwarz over Q(i)); "
@@ -25,11 +26,15 @@ META = {
     "note": "NOT proved, validated numerically only (tie-only oracles, 1e-8, mpmath 30 digits from the definitions): "
             "vn_entropy, max/min_entropy, mutual_info, relative_entropy, trace_distance, mixed-state fidelity and their "
             "bounds/inequalities (0<=S<=log d, I>=0, S(rho||sigma)>=0 / +inf on support mismatch, metric axioms on "
-            "random triples, fidelity in [0,1] and symmetric). Trusted: Coq kernel; the hand transcription "
+            "random triples, fidelity in [0,1] and symmetric). FINDING reported under the single key "
+            "finding:relative_entropy_rank_deficient: qp.math.relative_entropy returns nan/inf for rank-deficient arguments "
+            "(e.g. relative_entropy(|+><+|, |+><+|) = inf instead of 0). Trusted: Coq kernel; the hand transcription "
             "coq/Num/QInfoModel.v (quad-tree representation, big-endian conversion from flat arrays) is tied to /repo "
             "only by the correspondence run; the multiplicativity / trace-preservation theorems for expand_matrix cover "
-            "the Kronecker-with-identity part, the general wire permutation is characterised entrywise "
-            "(permute_dense_entry) but its multiplicativity is not proved; batching is modelled per batch element; "
+            "the Kronecker-with-identity part (the link to the transcribed expand_matrix is proved for <= 3+3+3 ordered "
+            "contiguous wires), the general wire permutation is characterised entrywise (permute_dense_is_reindexing) but its "
+            "multiplicativity and trace invariance are not proved (reduce_dm_trace_preserved is therefore partial: sorted "
+            "kept wires); batching is modelled per batch element; "
             "floating-point rounding, c_dtype and check_state=True validation are outside the model (inputs are dyadic so "
             "the float results are exact).",
     "assumptions": ["inputs well-formed: 2^n x 2^n arrays, distinct in-range indices, wires contained in wire_order",
@@ -379,6 +384,11 @@ def pick_n(rng, tier, cap=5):
 def rand_indices(rng, n, allow_empty=False, allow_full=True):
     lo = 0 if allow_empty else 1
     hi = n if allow_full else n - 1
+    if n >= 3 and hi >= 3 and rng.random() < 0.3:
+        k = rng.randint(3, hi)
+        ix = sorted(rng.sample(range(n), k))
+        s = rng.randint(1, k - 1)
+        return ix[s:] + ix[:s]                     # cyclic shift: a permutation that is not an involution
     k = rng.randint(lo, max(lo, hi))
     ix = rng.sample(range(n), k)
     if rng.random() < 0.4:
@@ -727,7 +737,7 @@ def run(ctx):
     ctx.coq_props()
     rng = ctx.rng
     quick = ctx.tier == "quick"
-    n_tie, n_or = (230, 70) if quick else (1500, 420)
+    n_tie, n_or = (180, 60) if quick else (1000, 300)
     replay_case = None
     if getattr(ctx, "replay", None) and isinstance(ctx.replay.get("replay", {}).get("case"), dict):
         replay_case = ctx.replay["replay"]["case"]
@@ -755,7 +765,7 @@ def run(ctx):
 
     # ---- tie K: exact correspondence with the Coq model
     terms, owner = [], []
-    hist = {"ops": {}, "n": {}, "batched": 0, "unsorted_indices": 0, "autograd": 0, "sparse": 0,
+    hist = {"ops": {}, "n": {}, "batched": 0, "unsorted_indices": 0, "non_involutive_index_perms": 0, "autograd": 0, "sparse": 0,
             "expand_permuted": 0, "expand_batch1_axis_dropped": 0, "state_kinds": {}}
     nontrivial = set()
     for ci, (c, k) in enumerate(zip(ties, tie_ix)):
@@ -770,6 +780,9 @@ def run(ctx):
             hist["state_kinds"][kd] = hist["state_kinds"].get(kd, 0) + 1
         if "indices" in c and c["indices"] != sorted(c["indices"]):
             hist["unsorted_indices"] += 1
+            srt = sorted(c["indices"])
+            pm = [srt.index(w) for w in c["indices"]]
+            hist["non_involutive_index_perms"] += any(pm[pm[j]] != j for j in range(len(pm)))
         if c["op"] == "expand" and c["wire_order"] and c["wires"] and \
                 [w for w in c["wire_order"] if w in c["wires"]] != c["wires"]:
             hist["expand_permuted"] += 1
@@ -795,7 +808,7 @@ def run(ctx):
             terms.append(t)
             owner.append(ci)
     bad = ctx.coq_eval_cases("cases", "From PLV Require Import Num.QInfoModel.\nRequire Import ZArith QArith.\nOpen Scope Z_scope.",
-                             terms, "check_case", chunk=max(12, len(terms) // 8 + 1))
+                             terms, "check_case", chunk=max(40, len(terms) // (3 if quick else 8) + 1))
     for i in bad:
         c = ties[owner[i]]
         ctx.violation(ckey("corr", c), {"case": c, "implementation": obs[tie_ix[owner[i]]],
